@@ -51,7 +51,7 @@ RULE += (' '
          'Corpus incl. dense-GMRES AIR paths (maxiter below / at the local size, CSR and BSR).')
 TRUSTED = ['GCC 12 AddressSanitizer / UndefinedBehaviorSanitizer / LeakSanitizer runtimes (oracle side)',
            'NumPy allocates each array with malloc of its exact byte size (so the red zones start at the array ends)']
-PARTIAL = ['59 of 66 kernels: sanitizer oracle only, no theorem',
+PARTIAL = ['58 of 66 kernels: sanitizer oracle only, no theorem',
            'termination: time limit per run, plus structural recursion of the models; no termination theorem for the C++ loops']
 REFUTED = []
 HEADER = ('From Coq Require Import ZArith List Bool PrimFloat.\nImport ListNotations.\n'
